@@ -410,13 +410,22 @@ def _level_task(kind):
     return kind, best
 
 
+def _worker_init():
+    # forked workers inherit the parent's SIGTERM handler and atexit hook (which remove the scratch directory): disarm both
+    import atexit
+    import signal
+    for sig in (signal.SIGTERM, signal.SIGINT, signal.SIGHUP):
+        signal.signal(sig, signal.SIG_DFL)
+    atexit._clear()
+
+
 def pool_map(fn, items):
     import multiprocessing as mp
     from .common import NCPU
     if len(items) <= 1 or NCPU <= 1:
         return [fn(x) for x in items]
     ctx = mp.get_context("fork")
-    with ctx.Pool(min(NCPU, len(items))) as pool:
+    with ctx.Pool(min(NCPU, len(items)), initializer=_worker_init) as pool:
         return pool.map(fn, items, chunksize=1)
 
 
